@@ -13,19 +13,22 @@ CONSTANTS T,          \* time-out in ticks (> 0)
           MaxTyme,
           Bases,      \* tyme bases a Tymist may be wound to (integers, negative = earlier)
           Pats        \* answers of the application to a non persistent request: sequences over {"p", "g"}, one element per
-                      \* service ("p": a piece of the body is written = traffic, "g": nothing yet), or <<"stall">>: nothing, for ever
+                      \* service ("p": a piece of the body is written = traffic, "g": nothing yet), or <<"stall">>: nothing, for ever,
+                      \* or <<"blocked">>: pieces for ever, but the peer stopped reading when it sent its request: every send()
+                      \* of the server would block, no byte leaves (an attempt to send is not traffic)
 VARIABLES tyme, state, last, h, pat, base
 vars == <<tyme, state, last, h, pat, base>>
 Init == tyme = 0 /\ state = "new" /\ last = 0 /\ h = <<>> /\ pat = <<>> /\ base = 0
 Log(ev, idle) == h' = Append(h, [ev |-> ev, tyme |-> tyme, state |-> state', idle |-> idle])
 \* a complete NON persistent request (HTTP/1.1 with Connection: close) arrives: the application answers according to
 \* pattern q; the first element is served in the same service call
-Answer(q, now) == IF q = <<"stall">> THEN pat' = q /\ state' = "answering" /\ last' = now             \* request bytes were traffic
+Silent(q) == q \in {<<"stall">>, <<"blocked">>}    \* no traffic ever: nothing is written, or nothing of it leaves (the peer stopped reading)
+Answer(q, now) == IF Silent(q) THEN pat' = q /\ state' = "answering" /\ last' = now             \* request bytes were traffic
                   ELSE IF q = <<>> THEN pat' = <<>> /\ state' = "ended" /\ last' = now                \* empty body: head + end
                   ELSE pat' = Tail(q) /\ state' = "answering" /\ last' = now
 Stream(now, lst) == \* one service of a connection whose non persistent request is being answered
   IF now - lst >= T THEN state' = "closed" /\ last' = lst /\ UNCHANGED pat
-  ELSE IF pat = <<"stall">> THEN last' = lst /\ UNCHANGED <<state, pat>>
+  ELSE IF Silent(pat) THEN last' = lst /\ UNCHANGED <<state, pat>>
   ELSE IF pat = <<>> THEN state' = "ended" /\ last' = now /\ UNCHANGED pat                            \* the end of the body is written
   ELSE /\ pat' = Tail(pat) /\ UNCHANGED state /\ last' = (IF Head(pat) = "p" THEN now ELSE lst)
 \* one call of service() at the current tyme, `ev` is what happened since the previous call: what the client did, or
